@@ -172,6 +172,11 @@ def main(argv=None):
             w = e['witnesses'][0] if e['witnesses'] else {}
             sys.stderr.write(f'  signature={core.canon(e["sig"])} n={e["n"]} witness={core.canon(w)[:600]}\n')
 
+    # a shard that ran out of its (generous) wall-clock budget did not produce the workload the verdict is about
+    cut = [n for n in m['notes'] if 'time budget hit' in n]
+    if cut:
+        inconclusive.append(f'time budget hit in {len(cut)} shard(s): the workload was not completed ({cut[0][:80]})')
+
     # reach floors -----------------------------------------------------------------------
     floors = mod.floors(a.tier) if hasattr(mod, 'floors') else {}
     floor_report = {}
